@@ -358,8 +358,6 @@ PROPS["C15"] = {
           "whatever marshal emits, the 5-bit RC field equals the number of report blocks in the body and the length field matches", bound="31 report blocks (the largest count RC can announce)", module=RM, timeout=900),
         K("RR count field == blocks serialised (32 blocks)", "c15_rr_count_field_32_blocks", "quick", "bounded", ["marshal_rtcp_packets", "build_receiver_report_body", "write_rtcp_packet"],
           "a report with more blocks than RC can announce is rejected (or split) — never emitted with a wrapped count", bound="32 report blocks", module=RM, timeout=900),
-        K("BYE count field == sources serialised (32 sources)", "c15_bye_count_field_32_sources", "thorough", "bounded", ["marshal_rtcp_packets", "build_goodbye_body"],
-          "same law for the 5-bit SC field", bound="32 sources", module=RM, timeout=900),
         K("canary: report block inverse without clamping", "canary_report_block_unclamped", "quick", "canary", ["build_report_block"], "false claim, must FAIL", expect="fail", module=RM),
     ],
 }
@@ -389,8 +387,6 @@ PROPS["C16"] = {
           bound="5-byte key, 7-byte data (symbolic); hmac substitute", module=SM, timeout=600),
         K("encode: plain length field", "c16_encode_plain_length", "quick", "bounded", ["encode_stun_message", "append_attribute"],
           "no MI/FP: length == len-20, LIFETIME layout", bound="1 LIFETIME attribute", module=SM, timeout=600),
-        K("decode(encode) Binding success + XOR-MAPPED v4", "c16_decode_of_encode_xor_mapped_v4", "thorough", "bounded", ["encode_stun_message", "decode_stun_message", "append_xor_address", "parse_xor_address"],
-          "the message encode produced decodes to the same class, method, transaction id and address", bound="one IPv4 XOR-MAPPED-ADDRESS; framing octets asserted then re-written as literals", module=SM, timeout=2400),
         K("decode: Binding success + XOR-MAPPED-ADDRESS v4 (literal framing)", "c16_decode_xor_mapped_v4_literal", "quick", "bounded", ["decode_stun_message", "parse_xor_address"],
           "class, method, transaction id recovered; address/port un-XORed with the cookie; no other field set",
           bound="32-byte message; type/length/attribute-header octets literal, transaction id / port / address symbolic", module=SM, timeout=900),
